@@ -1,6 +1,8 @@
 """C03 - unmarshal(T, x) raises or returns a value that structurally conforms to T (DESIGN 4, C03)."""
 from __future__ import annotations
 
+import datetime
+
 from vlib import universe
 from vlib.cond import Cond
 from vlib.fixtures import models as M
@@ -20,7 +22,8 @@ META = {
                     "conformance oracle: vlib.shapes.*.conforms (isinstance per position; bool accepted for int)"],
 }
 
-EXTRA = [M.Unrelated(), b"ab", M.Point(1, 2), M.NT(1, "x"), (1, "a"), b"x", b"a", bytearray(b"y"), b"2"]
+EXTRA = [M.Unrelated(), b"ab", M.Point(1, 2), M.NT(1, "x"), (1, "a"), b"x", b"a", bytearray(b"y"), b"2",
+         M.Point("1", "2"), M.Point(1, None), M.NT("1", 2), datetime.timedelta(seconds=90), datetime.date(2020, 1, 2)]
 
 
 def _um(T):
